@@ -24,10 +24,11 @@ func plansFor(prop string, thorough bool) ([]Plan, int) {
 			{Name: "gov-all", Const: "gov", Kinds: []string{"vote", "seen", "dkgres", "checkin", "dkgmsg"}, Depth: d(3, 4), Product: "replicas",
 				SimNum: d(60, 1500), SimDepth: d(30, 60), MaxBeh: d(1500, 30000)},
 			{Name: "val-replicas", Const: "val", Kinds: []string{"vote", "seen", "checkin"}, Depth: d(4, 6), Product: "replicas", MaxBeh: d(1000, 20000)},
-			{Name: "val2-replicas", Const: "val2", Kinds: []string{"vote", "seen", "checkin"}, Depth: d(6, 9), Product: "replicas", MaxBeh: d(6000, 0)},
+			{Name: "val2-replicas", Const: "val2", Kinds: []string{"vote", "seen", "checkin"}, Depth: d(6, 9), Edges: true, MaxBeh: d(6000, 0)},
 			{Name: "gov-dupacc", Const: "gov", Kinds: []string{"vote", "dupacc"}, Depth: d(3, 4), Product: "replicas", MaxBeh: d(0, 20000)},
 			{Name: "one-mempool", Const: "one", Kinds: []string{"seen"}, Depth: d(12, 14), Product: "replicas", Mempool: true, MaxBeh: d(400, 4000)},
 			{Name: "val2-restart", Const: "val2", Kinds: []string{"vote", "seen", "checkin"}, Depth: d(5, 7), Product: "replicas", Restart: true, MaxBeh: d(1500, 20000)},
+			{Name: "val1-restart", Const: "val1", Kinds: []string{"seen", "checkin"}, Depth: d(6, 8), Edges: true, Restart: true, MaxBeh: d(0, 0)},
 			{Name: "tie-skew", Const: "tie", Kinds: []string{"vote", "dkgres"}, Depth: d(5, 7), Product: "replicas", Skew: true, SimNum: d(100, 1000), SimDepth: d(12, 20), MaxBeh: d(800, 8000)},
 		}, replicas
 	case "C11":
@@ -51,6 +52,7 @@ func plansFor(prop string, thorough bool) ([]Plan, int) {
 		return []Plan{
 			{Name: "gov-bad", Const: "gov", Kinds: []string{"vote", "seen", "dkgres", "bad", "replay", "chk"}, Depth: d(3, 4),
 				SimNum: d(60, 1500), SimDepth: d(30, 50), MaxBeh: d(2500, 40000)},
+			{Name: "out-dkg", Const: "out", Kinds: []string{"vote", "dkgres", "dkgone"}, Depth: d(5, 6), MaxBeh: d(0, 0)},
 			{Name: "chk-limit", Const: "one", Kinds: []string{"chk", "seen"}, Depth: d(13, 15), MaxBeh: d(3000, 0)},
 			{Name: "gov-ni", Const: "ni", Kinds: []string{"vote", "seen"}, Depth: d(7, 8), Product: "ni", Twins: "c10", MaxBeh: d(1500, 20000)},
 			{Name: "gov-ni-bad", Const: "ni", Kinds: []string{"vote", "seen", "dkgres", "bad", "replay"}, Depth: d(2, 3), Product: "ni", Twins: "c10", MaxBeh: d(1500, 20000)},
